@@ -14,19 +14,20 @@ const (
 
 // Config is the per-run (swarm) configuration.
 type Config struct {
-	CacheCap  int    `json:"cache_cap"`            // -1: the package's default cache; >=0: a client cache with this capacity installed before the run
-	PoolMode  int    `json:"pool_mode"`            // 0 real sync.Pool, 1 deterministic LIFO (maximal reuse)
-	Strategy  string `json:"strategy,omitempty"`   // goroutine mode: "walk" or "pct"
-	SwitchDen int    `json:"switch_den,omitempty"` // walk: switch task with probability 1/SwitchDen at an enabled yield point
-	Preempts  int    `json:"preempts,omitempty"`   // pct: number of forced preemptions
-	Yields    int    `json:"yields,omitempty"`     // enabled yield kinds (bit mask)
-	LoadSlow  int    `json:"load_slow,omitempty"`  // extra yields inside the loader
-	Faults    bool   `json:"faults"`               // false: fault-free stratum
-	NS        bool   `json:"ns,omitempty"`         // compile with CompileWithNS({x: urn:x, y: urn:y}) instead of Compile
-	NSSwap    bool   `json:"ns_swap,omitempty"`    // with NS: bind x->urn:y and y->urn:x instead of x->urn:x, y->urn:y
-	NSRebind  bool   `json:"ns_rebind,omitempty"`  // compile every expression once, then re-bind the prefixes in the same map object before the tasks start
-	Must      bool   `json:"must,omitempty"`       // compile through MustCompile instead of Compile
-	Pristine  bool   `json:"pristine,omitempty"`   // also compute every reference outcome in a pristine child process
+	CacheCap    int    `json:"cache_cap"`              // -1: the package's default cache; >=0: a client cache with this capacity installed before the run
+	PoolMode    int    `json:"pool_mode"`              // 0 real sync.Pool, 1 deterministic LIFO (maximal reuse)
+	Strategy    string `json:"strategy,omitempty"`     // goroutine mode: "walk" or "pct"
+	SwitchDen   int    `json:"switch_den,omitempty"`   // walk: switch task with probability 1/SwitchDen at an enabled yield point
+	Preempts    int    `json:"preempts,omitempty"`     // pct: number of forced preemptions
+	Yields      int    `json:"yields,omitempty"`       // enabled yield kinds (bit mask)
+	LoadSlow    int    `json:"load_slow,omitempty"`    // extra yields inside the loader
+	Faults      bool   `json:"faults"`                 // false: fault-free stratum
+	NS          bool   `json:"ns,omitempty"`           // compile with CompileWithNS({x: urn:x, y: urn:y}) instead of Compile
+	NSSwap      bool   `json:"ns_swap,omitempty"`      // with NS: bind x->urn:y and y->urn:x instead of x->urn:x, y->urn:y
+	NSRebind    bool   `json:"ns_rebind,omitempty"`    // compile every expression once, then re-bind the prefixes in the same map object before the tasks start
+	Must        bool   `json:"must,omitempty"`         // compile through MustCompile instead of Compile
+	ColdProcess bool   `json:"cold_process,omitempty"` // goroutine mode: executed in a pristine child process, and the reference outcomes are computed AFTER the concurrent phase, so that the tasks meet a package nobody has warmed up (lazily initialised tables)
+	Pristine    bool   `json:"pristine,omitempty"`     // also compute every reference outcome in a pristine child process
 }
 
 // ExprSpec is one expression of a scenario.
@@ -50,6 +51,7 @@ type Step struct {
 	S     string `json:"s,omitempty"`     // subject string
 	R     string `json:"r,omitempty"`     // replacement string
 	Fail  bool   `json:"fail,omitempty"`  // the loader fails during this operation (load-error fault)
+	Panic bool   `json:"panic,omitempty"` // the loader panics during this operation (load-panic fault)
 	Src   string `json:"src,omitempty"`   // how the pattern reaches the engine: const | concat
 }
 
@@ -388,13 +390,15 @@ func genCacheOps(r *Rng, n int, keys []string, faults bool) []Step {
 			st := Step{Op: "get", K: k}
 			if faults && r.Chance(1, 6) {
 				st.Fail = true
+			} else if faults && r.Chance(1, 12) {
+				st.Panic = true
 			}
 			out = append(out, st)
 		case 1:
 			st := Step{Op: "matches", S: genSubject(r), K: k, Src: r.Pick([]string{"const", "const", "concat", "nodeset"})}
 			out = append(out, st)
 		case 2:
-			out = append(out, Step{Op: "replace", S: genSubject(r), K: k, R: genRepl(r, countGroups(k)), Src: r.Pick([]string{"const", "concat"})})
+			out = append(out, Step{Op: "replace", S: genSubject(r), K: k, R: genRepl(r, countGroups(k)), Src: r.Pick([]string{"const", "concat", "const", "emptyset"})})
 		case 3:
 			out = append(out, Step{Op: "compilebad", K: r.Pick([]string{"(", "a(", "[a", "a**", "(?P<n", "\\", ")"})})
 		}
@@ -528,6 +532,7 @@ func GenC05(seed, run uint64, ok CompileOK) *Scenario {
 		}
 		s.Exprs = genExprs(g, r.Range(1, 4), ok, func() (*E, bool, bool) { return g.Top(), false, false })
 	}
+	s.Cfg.ColdProcess = r.Chance(1, 8)
 	compileStorm := r.Chance(1, 6) // a run about concurrent Compile / CompileWithNS calls only
 	if compileStorm {
 		s.Cfg.NS = r.Chance(1, 2)
